@@ -1,4 +1,127 @@
-(* C20 — stub while the proofs are being written *)
-From Verif Require Import model.DataSourcing.
-Example C20_stub : True. Proof. exact I. Qed.
-Print Assumptions C20_stub.
+(* C20 — each component message reaches every subscribed metric stream exactly once.
+   Statements only; every proof is `exact <lemma>` from proofs/DataSourcingFacts.v.
+
+   All theorems quantify over EVERY event sequence [es] of the transition system of
+   model/DataSourcing.v (any interleaving of subscription requests, handler (re)starts, API
+   messages, takes and deliveries, for any answer [cats] of `components()`).
+   PARTIAL with respect to the running system: that asyncio/frequenz-channels only produce such
+   sequences (FIFO execution of the per-message tasks with an atomic fan-out, a non-suspending
+   Broadcast.send, cancellation before the old handler runs again, the API receiver surviving the
+   restart, no receiver overflow) is a runtime assumption exercised by the trace-refinement runs. *)
+From Verif Require Import model.DataSourcing proofs.DataSourcingFacts.
+
+(* Every message accepted by a component's API receiver is in exactly one place: the take log splits
+   into delivered tasks ++ in-flight tasks, everything sent is the fan-out of the delivered tasks, and
+   per component  accepted = delivered ++ in flight ++ still buffered  (as sequences, in arrival order). *)
+Theorem C20_conservation : forall cats es s, run cats init es = Some s ->
+  exists done, st_taken s = done ++ st_fly s /\ st_out s = flat_map fanout done /\
+  forall c, acc_of c (st_acc s) =
+            map t_msg (tasks_of c done) ++ map t_msg (tasks_of c (st_fly s)) ++ queue s c.
+Proof. exact conservation. Qed.
+
+(* On every channel (c, n) the samples sent are: one sample (that metric's value, the message's
+   timestamp) per delivered message of c whose handler snapshot contained n — in take order; a
+   position of the take log contributes at most once. *)
+Theorem C20_exactly_once_in_order : forall cats es s, run cats init es = Some s ->
+  exists done, st_taken s = done ++ st_fly s /\
+  forall c n, chan_out c n (st_out s) =
+    map (fun t => sample_of n (t_msg t))
+        (filter (fun t => (t_comp t =? c) && mem_name n (t_snap t)) done).
+Proof. exact exactly_once_in_order. Qed.
+
+(* "subscribed at that time": the snapshot a taken message travels with is the component's current
+   subscription set at the moment of the take. *)
+Theorem C20_snapshot_is_current : forall cats es s c s' o, run cats init es = Some s ->
+  step cats s (Take c) = Some (s', o) ->
+  exists m, st_taken s' = st_taken s ++ [mkT c (st_subs s c) m] /\
+            st_fly s' = st_fly s ++ [mkT c (st_subs s c) m] /\ st_subs s' = st_subs s.
+Proof. exact take_snapshot_current_reach. Qed.
+
+(* Once a name is subscribed, whatever happens next (further subscriptions included) it stays
+   subscribed and every message of its component taken from then on carries it. *)
+Theorem C20_existing_unaffected : forall cats es0 es s s' c n,
+  run cats init es0 = Some s -> In n (st_subs s c) -> run cats s es = Some s' ->
+  In n (st_subs s' c) /\
+  exists new, st_taken s' = st_taken s ++ new /\ forall t, In t new -> t_comp t = c -> In n (t_snap t).
+Proof. exact existing_unaffected_reach. Qed.
+
+(* A subscription request changes nothing but the subscription set and handler of its own component:
+   buffers, in-flight tasks, everything already sent and all other components are untouched. *)
+Theorem C20_add_frame : forall cats s c n s' o, step cats s (AddMetric c n) = Some (s', o) ->
+  o = [] /\ st_recv s' = st_recv s /\ st_fly s' = st_fly s /\ st_out s' = st_out s /\ st_taken s' = st_taken s /\
+  st_acc s' = st_acc s /\
+  forall c', c' <> c -> st_subs s' c' = st_subs s c' /\ st_hand s' c' = st_hand s c'.
+Proof. exact add_frame. Qed.
+
+(* Consequence: every stream is a gap-free run of its component's accepted messages — some prefix is
+   skipped (before the subscription), then every message, each once, in order, up to the last delivered. *)
+Theorem C20_stream_gap_free : forall cats es s, run cats init es = Some s ->
+  exists done, st_taken s = done ++ st_fly s /\
+  forall c n, exists k,
+    chan_out c n (st_out s) = map (sample_of n) (skipn k (map t_msg (tasks_of c done))) /\
+    acc_of c (st_acc s) = map t_msg (tasks_of c done) ++ map t_msg (tasks_of c (st_fly s)) ++ queue s c.
+Proof. exact stream_gap_free. Qed.
+
+(* A request whose channel name is already subscribed is a no-op; so is the second of two identical requests. *)
+Theorem C20_idempotent : forall cats s c n, In n (st_subs s c) -> step cats s (AddMetric c n) = Some (s, []).
+Proof. exact add_existing_noop. Qed.
+
+Theorem C20_repeat_no_effect : forall cats s c n s1 o,
+  step cats s (AddMetric c n) = Some (s1, o) -> step cats s1 (AddMetric c n) = Some (s1, []).
+Proof. exact add_twice_noop. Qed.
+
+(* Unknown component id: no state change. *)
+Theorem C20_unknown : forall cats s c n, cats c = None -> step cats s (AddMetric c n) = Some (s, []).
+Proof. exact add_unknown_noop. Qed.
+
+(* A request for a metric the component's data does not provide (or for a component category without
+   data) is ignored as well, so no reachable handler ever crashes and every handler (re)start ends up
+   running with the current subscription set.
+   (C20_invalid_metric_refuted_before_fix: before the `fix:` commit such a request was registered, every
+   later (re)start of the component's handler raised KeyError/ValueError, and the EXISTING streams of the
+   component stopped for good — witness in corpus/C20/trace_invalid_metric.json.) *)
+Theorem C20_invalid_request_ignored : forall cats s c n cat,
+  cats c = Some cat -> supported cat (n_metric n) = false -> step cats s (AddMetric c n) = Some (s, []).
+Proof. exact add_unsupported_noop. Qed.
+
+Theorem C20_handler_never_crashes : forall cats es s c, run cats init es = Some s -> st_hand s c <> Some HCrashed.
+Proof. exact never_crashed. Qed.
+
+Theorem C20_handler_start_runs : forall cats es s c s' o, run cats init es = Some s ->
+  step cats s (HandlerStart c) = Some (s', o) -> st_hand s' c = Some (HRunning (st_subs s c)).
+Proof. exact handler_start_runs. Qed.
+
+(* The trace checker used for the correspondence accepts only runs of the transition system, so the
+   theorems above apply to every recorded trace of the real code it accepts. *)
+Theorem C20_checked_traces_are_runs : forall cats evs s s',
+  run_checked cats s evs = Some s' -> run cats s (map fst evs) = Some s'.
+Proof. exact run_checked_run. Qed.
+
+(* Non-vacuity: a subscription added while a message is in flight and another one is buffered. *)
+Example C20_nonvacuous :
+  let cats := cats_of [(4, Meter)] in
+  let a := mkN 0 0 in let b := mkN 14 0 in
+  let m k := mkMsg (k * 1000000) (map (fun i => 100 * k + Z.of_nat i) (seq 0 28)) in
+  match run cats init [AddMetric 4 a; HandlerStart 4; ApiMsg 4 (m 1); ApiMsg 4 (m 2); Take 4;
+                       AddMetric 4 b; AddMetric 4 a; AddMetric 7 a; AddMetric 4 (mkN 15 0); HandlerStart 4; Take 4; ApiMsg 4 (m 3);
+                       Deliver; Take 4; Deliver; Deliver] with
+  | Some s => chan_out 4 a (st_out s) = [(1000000, 100); (2000000, 200); (3000000, 300)] /\
+              chan_out 4 b (st_out s) = [(2000000, 214); (3000000, 314)] /\
+              st_fly s = [] /\ queue s 4 = []
+  | None => False
+  end.
+Proof. vm_compute. repeat split; reflexivity. Qed.
+
+Print Assumptions C20_conservation.
+Print Assumptions C20_exactly_once_in_order.
+Print Assumptions C20_snapshot_is_current.
+Print Assumptions C20_existing_unaffected.
+Print Assumptions C20_add_frame.
+Print Assumptions C20_stream_gap_free.
+Print Assumptions C20_idempotent.
+Print Assumptions C20_repeat_no_effect.
+Print Assumptions C20_unknown.
+Print Assumptions C20_invalid_request_ignored.
+Print Assumptions C20_handler_never_crashes.
+Print Assumptions C20_handler_start_runs.
+Print Assumptions C20_checked_traces_are_runs.
